@@ -14,6 +14,7 @@ pre-emption inside chartparse frames).  Invariants after every operation, checke
 from __future__ import annotations
 
 from datetime import timedelta
+import json
 from typing import Any
 
 from detsim import env, gen, minimize, rng, runner
@@ -184,6 +185,29 @@ def make_plan(seed: int, tier: str, index: int) -> dict[str, Any]:
     for _ in range(n_clients):
         clients.append([_gen_op(p, doc, present, ticks, kinds)
                         for _ in range(p.randint(3, 25 if n_clients < 3 else 12))])
+    st = rng.stream(seed, "stampede")
+    if n_clients > 1 and st.random() < 0.35:
+        # "stampede": every reader STARTS with the same read (often a far tick-to-time query, a
+        # rate query over ticks, a derived attribute, a rendering) - the first use of lazily built
+        # state by several threads at once, the classic check-then-act window
+        k = st.choice(["ts_far", "ts_far", "ts_far", "nps", "prop", "render", "hash", "iterate"])
+        if k == "ts_far":
+            far = ticks[-1] + st.choice([0, 1, 1000, 100000])
+            common = [{"op": st.choice(["ts_at", "ts_at_no"]), "tick": far, "hint": None}
+                      for _ in range(st.choice([1, 2]))]
+            for c_ in common:
+                if c_["op"] == "ts_at_no":
+                    c_.pop("hint")
+        else:
+            common = [_gen_op(st, doc, present, ticks, [k])]
+        follow = [{"op": "ts_at", "tick": t_, "hint": None} for t_ in (ticks[-1], ticks[len(ticks) // 2])]
+        for ops in clients:
+            ops[:0] = [dict(c_) for c_ in common]
+            if k == "ts_far":
+                ops.extend(dict(f_) for f_ in follow)  # later look-ups read what the race left behind
+        plan_stampede = k
+    else:
+        plan_stampede = None
     total_ops = sum(len(c) for c in clients)
     if n_clients == 1:
         schedule: dict[str, Any] = {"mode": "sequential", "seed": s.getrandbits(32)}
@@ -208,6 +232,12 @@ def make_plan(seed: int, tier: str, index: int) -> dict[str, Any]:
             schedule["est_steps"] *= 4
     plan = {"property": PROP, "seed": seed, "text": text, "present": present, "clients": clients,
             "schedule": schedule}
+    if index % 48 == 21:
+        plan["pickle_consumer"] = 1 + st.randrange(2**31 - 2)
+    if plan_stampede:
+        plan["stampede"] = plan_stampede
+        if st.random() < 0.6:
+            plan["cold"] = True
     f = rng.stream(seed, "fault")
     if present and g.random() < 0.3:
         # the shared chart (and its twin, and every fresh parse) was parsed WITH a track selection:
@@ -484,7 +514,8 @@ def execute(plan: dict[str, Any]) -> dict[str, Any]:
             return
         state["halt"] = True
         opk = op["op"] if op else ("final" if extra in ("cold-final", "other-chart-final",
-                                                         "fresh-twin-after-dropped-partner") else "initial")
+                                                         "fresh-twin-after-dropped-partner",
+                                                         "pickled-copy-in-another-interpreter") else "initial")
         absent = "absent" if (op and _absent_flag(op, present)) else "present"
         violations.append({"sig": f"C19/{inv}/{opk}/{absent}/{extra}", "detail": detail})
 
@@ -660,6 +691,45 @@ def execute(plan: dict[str, Any]) -> dict[str, Any]:
                     f"parsed twin no longer equals the chart (allocator shift {j})")
                 break
         probes["dropped_partner_sweeps"] = 1
+    if plan.get("pickle_consumer") and harness_error is None and not state["halt"]:
+        # (7) the used chart travels: every event is hashed (a read-only use), the chart is pickled
+        # and a program in ANOTHER interpreter (another PYTHONHASHSEED) loads it next to a freshly
+        # parsed chart.  What that program observes must be what it observes for the pickle of the
+        # untouched twin - nothing a read left inside the chart may travel with it
+        import base64
+        import pickle
+        import subprocess
+
+        from detsim.observe import all_events
+
+        try:
+            for _k, e_ in all_events(chart):
+                try:
+                    hash(e_)
+                except TypeError:
+                    pass
+            blobs = {"used": pickle.dumps(chart), "twin": pickle.dumps(twin)}
+        except BaseException:  # noqa: BLE001 - whether a chart pickles is judged by the clone operations
+            blobs = None
+        if blobs is not None:
+            req = {"text": text, "select": plan.get("select"),
+                   **{k_: base64.b64encode(v_).decode("ascii") for k_, v_ in blobs.items()}}
+            pr = subprocess.run([env.PYTHON, "-m", "detsim.pickleprobe"], input=json.dumps(req).encode("utf-8"),
+                                capture_output=True, timeout=150, cwd=env.VERIF_ROOT,
+                                env=env.fresh_interpreter_env(int(plan["pickle_consumer"])))
+            if pr.returncode != 0:
+                harness_error = "pickle consumer failed: " + pr.stderr.decode("utf-8", "replace")[-600:]
+            else:
+                rep = json.loads(pr.stdout.decode("ascii"))
+                probes["pickle_consumers_in_another_interpreter"] = 1
+                if rep["used"] != rep["twin"]:
+                    diff = {k_: (rep["used"].get(k_), rep["twin"].get(k_))
+                            for k_ in sorted(set(rep["used"]) | set(rep["twin"]))
+                            if rep["used"].get(k_) != rep["twin"].get(k_)}
+                    vio("observation-changed", None, "pickled-copy-in-another-interpreter",
+                        "the chart was used read-only (incl. hashing its events), pickled and loaded in "
+                        "an interpreter with another hash seed: that program observes (used chart, "
+                        f"untouched twin) {diff}")
     probes["cold_runs"] = 1 if cold else 0
     probes["runs_with_second_chart"] = 1 if other is not None else 0
     probes["runs_with_selection"] = 1 if plan.get("select") is not None else 0
